@@ -30,7 +30,7 @@ from typing import Awaitable, Dict, List, Optional, Set, Tuple, Type, Union
 from ._cache import DNSCache
 from ._dns import DNSQuestion, DNSQuestionType
 from ._engine import AsyncEngine
-from ._exceptions import NonUniqueNameException, NotRunningException
+from ._exceptions import BadTypeInNameException, NonUniqueNameException, NotRunningException
 from ._handlers.multicast_outgoing_queue import MulticastOutgoingQueue
 from ._handlers.query_handler import QueryHandler
 from ._handlers.record_manager import RecordManager
@@ -575,8 +575,15 @@ class Zeroconf(QuietLogger):
                     raise NonUniqueNameException
 
                 # change the name and look for a conflict
+                new_name = f'{instance_name}-{next_instance_number}.{info.type}'
+                try:
+                    service_type_name(new_name, strict=strict)
+                except BadTypeInNameException as ex:
+                    # The suffix no longer fits into the instance label: there
+                    # is no name left to try, and the name given stays as it is
+                    raise NonUniqueNameException from ex
                 server_is_name = info.server_key == info.key
-                info.name = f'{instance_name}-{next_instance_number}.{info.type}'
+                info.name = new_name
                 if server_is_name:
                     # The server was left at its default, the name of the service.
                     # It has to follow the rename or the address records would be
@@ -584,7 +591,6 @@ class Zeroconf(QuietLogger):
                     info.server = info.name
                     info.server_key = info.key
                 next_instance_number += 1
-                service_type_name(info.name, strict=strict)
                 next_time = now
                 i = 0
 
